@@ -104,6 +104,9 @@ def edit_in_place(tl, td, mode):
 
     from simfile.timing import Beat, BeatValue
 
+    for name in ("bpms", "stops", "delays", "warps"):
+        if len(getattr(td, name)) != len(tl[name]):
+            raise Violation(f"TimingData.{name} holds {len(getattr(td, name))} entries, the source declares {len(tl[name])}: {[str(x) for x in getattr(td, name)][:6]} vs {tl[name][:6]}")
     tl_b = copy.deepcopy(tl)
     b0 = D(tl["bpms"][0][1])
     nb = b0 + 17 if b0 + 17 <= 2000 else b0 - 17
